@@ -25,9 +25,32 @@ DECLSCAN = os.path.join(VERIF, "engines", "declscan", "target", "release", "decl
 
 MEMBERS = ["quantities", "qty-macros", "astronomical-quantities"]
 
-ALL_Q = ["mass", "length", "duration", "area", "volume", "speed",
-         "acceleration", "force", "energy", "power", "frequency",
-         "datavolume", "datathroughput", "temperature"]
+KNOWN_Q = ["mass", "length", "duration", "area", "volume", "speed",
+           "acceleration", "force", "energy", "power", "frequency",
+           "datavolume", "datathroughput", "temperature"]
+
+
+def quantity_features():
+    """The predefined-quantity features of the CURRENT tree: cargo features f with `#[cfg(feature = "f")] pub mod f;` in
+    src/lib.rs and a module file src/f.rs.  The 14 features of the pinned tree come first (in their fixed order), features
+    added later follow; a pinned feature that disappeared is still listed (its checks then fail, as they must)."""
+    import re
+    found = []
+    try:
+        cargo = open(os.path.join(REPO, "Cargo.toml")).read()
+        lib = open(os.path.join(REPO, "src", "lib.rs")).read()
+        m = re.search(r"^\[features\]\s*$(.*?)(?=^\[|\Z)", cargo, re.S | re.M)
+        feats = re.findall(r"^\s*([A-Za-z0-9_-]+)\s*=", m.group(1), re.M) if m else []
+        for f in feats:
+            if re.search(r'#\[cfg\(feature\s*=\s*"%s"\)\]\s*pub\s+mod\s+%s\s*;' % (re.escape(f), re.escape(f)), lib) and \
+                    os.path.exists(os.path.join(REPO, "src", f + ".rs")):
+                found.append(f)
+    except OSError:
+        pass
+    return KNOWN_Q + [f for f in found if f not in KNOWN_Q]
+
+
+ALL_Q = quantity_features()
 
 # name -> cargo arguments (all offline, nightly + wrapper)
 CONFIGS = {
@@ -171,6 +194,16 @@ class Crate:
 
 LIB_CRATES = ("quantities", "qty_macros", "astronomical_quantities")
 
+# Items the rules name by path.  Their *definition* path changes when the item is moved into a private module and
+# re-exported (`mod one; pub use one::One;`) although every public path stays valid; facts are normalised to the
+# canonical path below so that such a move is invisible to the rules.
+CANON = {
+    "adts": {"One": "quantities::One", "SIPrefix": "quantities::si_prefixes::SIPrefix", "Rate": "quantities::rate::Rate",
+             "ConversionTable": "quantities::converter::ConversionTable"},
+    "traits": {"Quantity": "quantities::Quantity", "Unit": "quantities::Unit", "LinearScaledUnit": "quantities::LinearScaledUnit",
+               "HasRefUnit": "quantities::HasRefUnit", "Converter": "quantities::converter::Converter"},
+}
+
 
 class FactSet:
     """All crates of one configuration (fact files are parsed lazily)."""
@@ -187,6 +220,24 @@ class FactSet:
             self.files.append((name, is_test, f))
         self._loaded = {}
         self._crates = []
+        self._moves = None
+
+    def moves(self):
+        """[(actual definition path, canonical path)] for the named items of the `quantities` crate that were moved."""
+        if self._moves is None:
+            self._moves = []
+            for (name, is_test, f) in self.files:
+                if name == "quantities" and not is_test:
+                    d = json.load(open(os.path.join(self.dir, f)))
+                    for kind, table in CANON.items():
+                        for it in d.get(kind, []):
+                            nm = it["path"].rsplit("::", 1)[-1]
+                            if nm in table and it["path"] != table[nm] and it["path"].startswith("quantities::"):
+                                others = [x for x in d.get(kind, []) if x["path"].rsplit("::", 1)[-1] == nm]
+                                if len(others) == 1:
+                                    self._moves.append((it["path"], table[nm]))
+                    break
+        return self._moves
 
     def _load(self, f):
         if f in self._loaded:
@@ -200,7 +251,13 @@ class FactSet:
             except Exception:
                 d = None
         if d is None:
-            d = json.load(open(os.path.join(self.dir, f)))
+            raw = open(os.path.join(self.dir, f)).read()
+            mv = self.moves()
+            if mv:
+                import re
+                for actual, canon in mv:
+                    raw = re.sub(re.escape(actual) + r"(?![A-Za-z0-9_])", canon, raw)
+            d = json.loads(raw)
             try:
                 tmp = pk + ".%d" % os.getpid()
                 with open(tmp, "wb") as fh:
